@@ -43,6 +43,18 @@ let register (reg : ostring -> (ostring list -> ostring list) -> (ostring list -
     if m = String.concat " " obs then None else Some ("property fixes the answer [" ^ m ^ "]") in
   let rstable a = (match a with [f; t] -> [sb (rs_table_code (z_of_string f) (z_of_string t))] | _ -> arity ()) in
   reg "rstable" rstable (equal_monitor rstable);
+  (* connector event round trip: the generic event's ID is int64(fnv64(ID)); every field comes back intact *)
+  let bytes_of h = let s = string_of_hex h in List.init (String.length s) (fun i -> n_of_int (Char.code s.[i])) in
+  let crt a = (match a with
+    | id :: fid :: typ :: created :: _zone :: nh :: rest ->
+      let rec pairs = function k :: v :: t -> (k ^ "=" ^ v) :: pairs t | _ -> [] in
+      ignore nh;
+      [string_of_z (conn_event_id (bytes_of id)); fid; created;
+       "id=" ^ id; "fid=" ^ fid; "type=" ^ typ; "at=" ^ created; "h=" ^ String.concat "," (pairs rest)]
+    | _ -> arity ()) in
+  reg "crt" crt (equal_monitor crt);
+  let crts a = List.map (fun id -> string_of_z (conn_event_id (bytes_of id))) a in
+  reg "crts" crts (equal_monitor crts);
   reg "ctl" ctl_model ctl_monitor;
   reg "webui" ctl_model ctl_monitor;
   (* routing grid *)
